@@ -625,6 +625,7 @@ impl Shared {
                     StaleAck(u8),
                     Garbage(u8),
                     EmitAndAdvance(Emit, u64),
+                    WrongAck(u8),
                 }
                 let mut opts: Vec<(E, bool)> = Vec::new();
                 let enabled = if self.manual { Vec::new() } else { self.broker.enabled() };
@@ -680,6 +681,14 @@ impl Shared {
                     if self.cfg.broker.garbage && self.broker.connected {
                         for k in 0..GARBAGE.len() as u8 {
                             opts.push((E::Garbage(k), true));
+                        }
+                    }
+                    if self.cfg.broker.wrong_kind_acks && self.broker.connected {
+                        let epoch = self.oracle.epoch;
+                        for r in self.oracle.reqs.iter() {
+                            if r.live(epoch) && r.pid.is_some() && r.pubrec_ok.is_none() && r.tx.contains_key(&c) {
+                                opts.push((E::WrongAck(r.seq), true));
+                            }
                         }
                     }
                 }
@@ -754,6 +763,17 @@ impl Shared {
                         self.push_raw(c, raw);
                         self.conns[c].eof_pending = true;
                         self.broker.conn_close();
+                        true
+                    }
+                    E::WrongAck(seq) => {
+                        let r = &self.oracle.reqs[seq as usize];
+                        let pid = r.pid.unwrap();
+                        let pkt = match r.kind {
+                            ReqKind::Pub1 | ReqKind::Unsub => SPacket::SubAck { pid, props: vec![], codes: vec![0] },
+                            ReqKind::Pub2 | ReqKind::Sub => SPacket::Ack { kind: mr::AckKind::PubAck, pid, reason: 0, props: vec![], form: 0 },
+                        };
+                        self.log(|| format!("  fault: broker acknowledges identifier {} with the wrong kind of packet", pid));
+                        self.push_inbound(c, pkt);
                         true
                     }
                     E::StaleAck(k) => {
